@@ -4,9 +4,10 @@
 (*    symbol from Alphabet (Supply) until it is closed (Close); every       *)
 (*    behaviour is one input together with the machine's run on it;         *)
 (*  - fixed-input mode (Gen = FALSE): the input is the constant Input.      *)
-EXTENDS Decoder, Json
+EXTENDS Decoder, SmilesReader, Json
 
-CONSTANTS Gen, Alphabet, MaxLen, Input
+CONSTANTS Gen, Alphabet, MaxLen, Input,
+          FirstSyms, AllowEmpty   \* partition of the input space over parallel TLC processes
 
 VARIABLE d
 vars == <<d>>
@@ -14,8 +15,10 @@ vars == <<d>>
 Init == d = IF Gen THEN InitState(<<>>, FALSE) ELSE InitState(Input, TRUE)
 
 Supply(s) == /\ Gen /\ Kind(d) = "wait" /\ Len(d.inp) < MaxLen
+             /\ (Len(d.inp) = 0 => s \in FirstSyms)
              /\ d' = [d EXCEPT !.inp = Append(@, s)]
-Close     == /\ Gen /\ Kind(d) = "wait" /\ d' = [d EXCEPT !.closed = TRUE]
+Close     == /\ Gen /\ Kind(d) = "wait" /\ (Len(d.inp) = 0 => AllowEmpty)
+             /\ d' = [d EXCEPT !.closed = TRUE]
 
 Act(name) == Kind(d) = name /\ d' = Step(d)
 
@@ -36,6 +39,13 @@ Next == \/ \E s \in Alphabet : Supply(s)
         \/ FormRing \/ RingsDone \/ WNextRoot \/ WStep
 
 Spec == Init /\ [][Next]_vars
+
+(* the same next-state relation with the dispatcher evaluated once per state *)
+(* (no per-action coverage); used for the large enumerations                 *)
+FastNext == \/ \E s \in Alphabet : Supply(s)
+            \/ Close
+            \/ LET k == Kind(d) IN k \notin {"wait", "done", "error"} /\ d' = Step(d)
+FastSpec == Init /\ [][FastNext]_vars
 FairSpec == Spec /\ WF_vars(Next)
 
 (* hide the consumed part of the input: the future does not depend on it *)
@@ -60,6 +70,27 @@ InvRingsClosed  == EveryRingClosed(d)
 InvBalanced     == Balanced(d)
 InvNoEmptyBranch == NoEmptyBranch(d)
 InvAllWritten   == AllWritten(d)
+
+(* write . parse = id: the specification's own reader reads the written     *)
+(* string back to the same molecule - atoms in order, bonded pairs and       *)
+(* orders, stereo marks per bond end, written neighbour order per atom       *)
+DecMarks(dd) ==
+  UNION {LET b == dd.bonds[j] IN
+           IF b.order # 1 THEN {}
+           ELSE (IF b.ls # "" THEN {<<b.src, b.dst, b.ls>>} ELSE {})
+                \cup (IF b.ring /\ b.rs # "" THEN {<<b.dst, b.src, b.rs>>} ELSE {}) : j \in 1..Len(dd.bonds)}
+WriteParseId(dd) ==
+  (dd.pc = "done" /\ Len(dd.atoms) > 0) =>
+    LET g == ReadSmilesX(dd.out, TRUE)
+    IN /\ g.ok
+       /\ Len(g.atoms) = Len(dd.atoms)
+       /\ \A i \in 1..Len(dd.atoms) : CoreAtom(g.atoms[i]) = CoreAtom(dd.atoms[i].atom) /\ ~g.atoms[i].aro
+       /\ BondSet(g.adj) = {<<dd.bonds[j].src, dd.bonds[j].dst, dd.bonds[j].order>> : j \in 1..Len(dd.bonds)}
+       /\ MarkSet(g.adj) = DecMarks(dd)
+       /\ \A i \in 1..Len(dd.atoms) :
+             OutOrder(g.adj, i) = [k \in 1..Len(Adj(dd, i)) |-> Other(dd.bonds[Adj(dd, i)[k]], i)]
+InvWriteParseId == WriteParseId(d)
+InvEmptyOut == (d.pc = "done" /\ Len(d.atoms) = 0) => d.out = ""
 
 (* C08 (design side): every behaviour reaches a terminal state *)
 Terminates == <>(Terminal(d))
